@@ -376,3 +376,10 @@ for _p in ("C14", "C12"):
     PROPS[_p]["modules"] = PROPS[_p]["modules"] + ["TermCheck"]
     PROPS[_p]["runners"] = PROPS[_p]["runners"] + [{"name": _p + "DISC", "synctest": True}]
     PROPS[_p]["rule"] += (" Runner C14DISC/C12DISC (M-seq): Close, Disconnect with an open and with a closed quit channel, from the states never-connected / online / closed, against nine scripts of the DISCONNECT write (partial, timeout, hard, closed, fully accepted yet failed) and a transport whose Close fails; compared with TermCheck.term_model (a set of allowed outcomes where the select is a free choice) and judged by term_ok (C14): Disconnect returns nil, ErrClosed, ErrDown, ErrCanceled or else ErrSubmit, the first three with no byte sent, nil with the whole packet sent; Close returns nil or the transport's error; resp. term_ok_c12 (C12): the connection was closed, Ping and ReadSlices afterwards get ErrClosed, nothing panicked or hung.")
+
+# C11: "every request gets its own response" needs identifiers that no pending request holds: the
+# startTx tie of C17 runs for C11 as well (a pending request outliving 8192 newer ones costs
+# 8192 requests in a history; the hook reaches that table directly)
+PROPS["C11"]["modules"] = PROPS["C11"]["modules"] + ["TxCheck"]
+PROPS["C11"]["runners"] = PROPS["C11"]["runners"] + [{"name": "C17TX"}]
+PROPS["C11"]["rule"] += (" Runner C17TX (M-pure, hook VerifStartTx) as for C17: the identifier given to a new Subscribe/Unsubscribe is held by no pending request, for tables and counters that histories reach only after 8192 requests.")
